@@ -332,7 +332,7 @@ def run_property(prop, tier='quick', seed=0, budget=None, only=None, jobs=None, 
             'solver_queries': sum((r.get('solver_queries') or 0) for r in results.values()),
             'solver_s': round(sum((r.get('solver_s') or 0) for r in results.values()), 1),
             'functions': sorted(functions)[:400],
-            'bounds': getattr(mod, 'BOUNDS', ''),
+            'bounds': (str(getattr(mod, 'BOUNDS', '')) + ' | ' + getattr(mod, 'LEVEL_ADDED', '')).strip(' |'),
             'lemmas': lem,
             'samples': samples or [{'note': 'no obligation concluded'}],
             'inconclusive_ids': sorted(inconclusive)[:50], 'not_run_ids': not_run[:50],
